@@ -201,7 +201,8 @@ PROPS["C05"] = dict(
          "anchors in several zones with nanoseconds; int64 extremes; -0, +-Inf, subnormal and huge floats; text containing the literal / predicate delimiters; empty blobs; predicate-valued "
          "objects) pushed through the pipeline graph -> io.WriteGraph (its producer goroutine scheduled by the seed) -> simulated writer -> disk image -> simulated reader (1..k bytes per call, "
          "(n>0,EOF), interspersed (0,nil) reads) -> io.ReadIntoGraph -> empty graph. Oracle: set equality by structural keys, both calls report the number of triples, re-export is byte "
-         "identical, WriteGraph returns / leaves no goroutine. Fault configuration (1 case in 4): writer or reader fails at byte k - the call must return an error. Each value also goes "
+         "identical, WriteGraph returns / leaves no goroutine. Fault configuration (4 cases in 10): the writer or the reader fails at byte k, the graph being exported fails its listing before the first / after j triples, or the graph being loaded refuses its "
+         "k-th write - the call must return an error (and after a refused write report exactly what the graph holds). Each value also goes "
          "through a print / re-parse probe (input sampling, labelled as such). Non-trivial: non-empty graph or a fired fault; distinct = distinct (graph, stream behaviour)",
     components_real=["io.WriteGraph / io.ReadIntoGraph (real code, WriteGraph instrumented)", "storage/memory (real code)", "triple, node, predicate, literal parsers and printers (real code)"],
     components_stub=["simulated disk: writer failing at byte k, reader with arbitrary legal chunking / failing at byte k (x/harness/simio.go)", "seeded scheduler in a synctest bubble for WriteGraph"],
